@@ -127,7 +127,7 @@ def tie(ctx):
                 corpus.append(lines)
     scripts = corpus + scripts
     res = K.run_pair(scripts)
-    j = K.judge(res, "crates_v1", "v1", lambda s: PREFIX, stale_of, opkey)
+    j = K.judge(res, "crates_v1", "v1", lambda s: PREFIX, stale_of, opkey, defined_only=K.const_query)
     j["hist"]["corpus_scripts"] = len(corpus)
     return {"ok": j["ok"], "evaluations": j["evaluations"],
             "distinct_nontrivial": j["distinct"],
